@@ -15,6 +15,7 @@ import hashlib
 import json
 import os
 import pickle
+import re
 import subprocess
 import sysconfig
 
@@ -484,6 +485,22 @@ _ALL = {}
 
 def lib(repo=None):
     return parse_all("c/lib/rf_write_hdf5.c", repo)
+
+
+def method_table(tu):
+    """{python name: C function name} from the PyMethodDef initialiser of the extension module"""
+    table = dict(re.findall(r'\{\s*"(\w+)"\s*,\s*(?:\(PyCFunction\)\s*)?(\w+)\s*,', tu.text))
+    if len(table) < 8:
+        raise AnalysisError("PyMethodDef table: %d entries found, 8 confirmed on the reference tree" % len(table))
+    return table
+
+
+def ext_fn(tu, pyname):
+    """the C function registered for the Python-level name (whatever it is called)"""
+    t = method_table(tu)
+    if pyname not in t:
+        raise AnalysisError("extension method `%s` is not in the PyMethodDef table" % pyname)
+    return t[pyname]
 
 
 def ext(repo=None):
